@@ -27,7 +27,7 @@ Val = Val.create()
 # kwargs mapping ``**k`` (value semantics: python copies it on each call)
 Kw = z3.Datatype('Kw')
 Kw.declare('mkkw', ('has_ipp', B), ('ipp', I), ('has_root', B), ('root', I),
-           ('packing', B), ('rest', I))
+           ('packing', B), ('rest', I), ('has_raw', B), ('kraw', Bytes), ('has_off', B), ('koff', I))
 Kw = Kw.create()
 
 # struct.Struct of a single integer code
